@@ -71,6 +71,63 @@ def norm_blk(b: Any) -> Any:
     return b
 
 
+def judge_runs(cases: list[dict[str, Any]], runs: dict[int, list[tuple[str, int, dict[str, Any]]]]
+               ) -> dict[int, tuple[str, dict[str, Any] | None]]:
+    """case index -> (what differs between the runs of the case, extra replay data); languages are compared by the
+    Lean semantics"""
+    preqs, pmeta = [], []
+    for i, rs in runs.items():
+        for k, (name, hs, rp) in enumerate(rs):
+            if "text" in rp:
+                preqs.append({"op": "dg.parse", "text": rp["text"]})
+                pmeta.append((i, k))
+    parsed = pvlib.lean(preqs) if preqs else []
+    blks: dict[tuple[int, int], Any] = {}
+    for (i, k), pr in zip(pmeta, parsed):
+        blks[(i, k)] = norm_blk(pr["blk"]) if pr.get("ok") else ("unparsable", pr.get("error"))
+    sreqs, smeta = [], []
+    for i, rs in runs.items():
+        distinct: list[tuple[int, Any]] = []
+        for k in range(len(rs)):
+            b = blks.get((i, k))
+            if b is not None and not any(json.dumps(b) == json.dumps(d) for _, d in distinct):
+                distinct.append((k, b))
+        cases[i]["distinct"] = distinct
+        ok_blks = [(k, b) for k, b in distinct if not (isinstance(b, tuple))]
+        for (k1, b1) in ok_blks[1:]:
+            k0, b0 = ok_blks[0]
+            sreqs.append({"op": "dg.subset", "learned": b1, "source": b0, "k": 2, "cap": 200, "limit": 20000})
+            smeta.append((i, k0, k1, "fwd"))
+            sreqs.append({"op": "dg.subset", "learned": b0, "source": b1, "k": 2, "cap": 200, "limit": 20000})
+            smeta.append((i, k0, k1, "bwd"))
+    sres = pvlib.lean(sreqs) if sreqs else []
+    lang_bad: dict[int, str] = {}
+    for (i, k0, k1, d), a in zip(smeta, sres):
+        if a.get("rejected"):
+            n0, h0, _ = runs[i][k0]
+            n1, h1, _ = runs[i][k1]
+            job = [(n["typ"], n["prev"]) for n in (a.get("first_rejected") or [])]
+            lang_bad.setdefault(i, f"presentation {n1!r} (hash seed {h1}) and {n0!r} (hash seed {h0}) give diagrams with "
+                                   f"different languages, e.g. {job} is a job of only one of them")
+    out: dict[int, tuple[str, dict[str, Any] | None]] = {}
+    for i, rs in runs.items():
+        c = cases[i]
+        ok = [r for r in rs if "text" in r[2]]
+        if ok and len(ok) != len(rs):
+            f = next(r for r in rs if "text" not in r[2])
+            out[i] = (f"the learner succeeds on presentation {ok[0][0]!r} (hash seed {ok[0][1]}) and fails on "
+                      f"{f[0]!r} (hash seed {f[1]}): {f[2].get('error', '')[:120]}",
+                      {"failing": {"presentation": f[0], "hash_seed": f[1], "jobs_pv": c["pres"][f[0]]}})
+            continue
+        kinds = {isinstance(b, tuple) for _, b in c.get("distinct", [])}
+        if kinds == {True, False}:
+            out[i] = ("one presentation yields a well-formed diagram and another an unreadable text", None)
+            continue
+        if i in lang_bad:
+            out[i] = (lang_bad[i], None)
+    return out
+
+
 def run(ctx: Ctx) -> None:
     ctx.prove(["O2P.Props.C03"], THEOREMS)
     if ctx.tier == "thorough":
@@ -127,41 +184,27 @@ def run(ctx: Ctx) -> None:
     runs: dict[int, list[tuple[str, int, dict[str, Any]]]] = {}
     for (i, name, hs), rp in zip(meta, reps):
         runs.setdefault(i, []).append((name, hs, rp))
-    # parse everything, group by normalised block; distinct blocks are compared by language
-    preqs, pmeta = [], []
-    for i, rs in runs.items():
-        for k, (name, hs, rp) in enumerate(rs):
-            if "text" in rp:
-                preqs.append({"op": "dg.parse", "text": rp["text"]})
-                pmeta.append((i, k))
-    parsed = pvlib.lean(preqs) if preqs else []
-    blks: dict[tuple[int, int], Any] = {}
-    for (i, k), pr in zip(pmeta, parsed):
-        blks[(i, k)] = norm_blk(pr["blk"]) if pr.get("ok") else ("unparsable", pr.get("error"))
-    sreqs, smeta = [], []
-    for i, rs in runs.items():
-        distinct: list[tuple[int, Any]] = []
-        for k in range(len(rs)):
-            b = blks.get((i, k))
-            if b is not None and not any(json.dumps(b) == json.dumps(d) for _, d in distinct):
-                distinct.append((k, b))
-        cases[i]["distinct"] = distinct
-        ok_blks = [(k, b) for k, b in distinct if not (isinstance(b, tuple))]
-        for (k1, b1) in ok_blks[1:]:
-            k0, b0 = ok_blks[0]
-            sreqs.append({"op": "dg.subset", "learned": b1, "source": b0, "k": 2, "cap": 200, "limit": 20000})
-            smeta.append((i, k0, k1, "fwd"))
-            sreqs.append({"op": "dg.subset", "learned": b0, "source": b1, "k": 2, "cap": 200, "limit": 20000})
-            smeta.append((i, k0, k1, "bwd"))
-    sres = pvlib.lean(sreqs) if sreqs else []
-    lang_bad: dict[int, str] = {}
-    for (i, k0, k1, d), a in zip(smeta, sres):
-        if a.get("rejected"):
-            n0, h0, _ = runs[i][k0]
-            n1, h1, _ = runs[i][k1]
-            job = [(n["typ"], n["prev"]) for n in (a.get("first_rejected") or [])]
-            lang_bad.setdefault(i, f"presentation {n1!r} (hash seed {h1}) and {n0!r} (hash seed {h0}) give diagrams with "
-                                   f"different languages, e.g. {job} is a job of only one of them")
+    verdicts = judge_runs(cases, runs)
+    # a difference must be a function of (presentation, hash seed): the runs of a flagged case are repeated, every
+    # request in a fresh interpreter, and only a difference that shows again is reported.  (Observed once in 128
+    # sweeps: a long-lived worker process produced, for one request, a text that no fresh process reproduces.)
+    flagged = sorted(verdicts)
+    if flagged:
+        idx = [k for k, (i, _, _) in enumerate(meta) if i in verdicts]
+        reps2 = pvlib.run_requests_fresh([reqs[k] for k in idx])
+        runs2: dict[int, list[tuple[str, int, dict[str, Any]]]] = {}
+        for k, rp in zip(idx, reps2):
+            i, name, hs = meta[k]
+            runs2.setdefault(i, []).append((name, hs, rp))
+        verdicts2 = judge_runs(cases, runs2)
+        for i in flagged:
+            if i in verdicts2:
+                runs[i] = runs2[i]
+                verdicts[i] = verdicts2[i]
+            else:
+                ctx.tick("difference_not_reproduced_in_fresh_processes")
+                ctx.cov.setdefault("unreproduced", []).append({"definition": cases[i]["blk"], "first_verdict": verdicts[i][0][:300]})
+                del verdicts[i]
     for i, c in enumerate(cases):
         if ctx.too_many():
             break
@@ -177,19 +220,9 @@ def run(ctx: Ctx) -> None:
         if c["ingest_bad"]:
             lc.report(ctx, c, c["ingest_bad"])
             continue
-        ok = [r for r in rs if "text" in r[2]]
-        if ok and len(ok) != len(rs):
-            f = next(r for r in rs if "text" not in r[2])
-            lc.report(ctx, c, f"the learner succeeds on presentation {ok[0][0]!r} (hash seed {ok[0][1]}) and fails on "
-                              f"{f[0]!r} (hash seed {f[1]}): {f[2].get('error', '')[:120]}",
-                      {"failing": {"presentation": f[0], "hash_seed": f[1], "jobs_pv": c["pres"][f[0]]}})
-            continue
-        kinds = {isinstance(b, tuple) for _, b in c.get("distinct", [])}
-        if kinds == {True, False}:
-            lc.report(ctx, c, "one presentation yields a well-formed diagram and another an unreadable text")
-            continue
-        if i in lang_bad:
-            lc.report(ctx, c, lang_bad[i])
+        if i in verdicts:
+            what, extra = verdicts[i]
+            lc.report(ctx, c, what, extra)
     ctx.assumptions += [
         "the ingestion clauses are theorems (every job list); independence of what follows ingestion (C03_walk_full in "
         "O2P/Props/C03.lean) is not proved: it is decided on the generated job sets x presentations x hash seeds, the "
